@@ -248,7 +248,7 @@ def handle (line : String) : String :=
       String.ofList ((List.range 240).flatMap cell)
     | _, _ => "bad-op"
   | ["static"] =>
-    s!"{showOpt (binomial int32 7 7)} {showOpt (binomial int32 (-1) (-1))} {showOpt (factorial uint32 5)} {showOpt (factorial uint64 20)} {showOpt (binomial uint32 6 2)} {showOpt (binomial uint64 40 20)} {showOpt (binomial uint32 5 9)}"
+    s!"{showOpt (binomial int32 7 7)} {showOpt (binomial int32 (-1) (-1))} {showOpt (factorial uint32 5)} {showOpt (factorial uint64 20)} {showOpt (binomial uint32 6 2)} {showOpt (binomial uint64 40 20)} {showOpt (binomial uint32 5 9)} relativeWeak towardZero relativeWeak towardZero"
   | ["mfr", st, rs, v, e] =>
     match parseStyle? st, parseRStyle? rs, v.toNat? with
     | some s, some r, some v =>
